@@ -12,7 +12,7 @@ NBSP = "\xa0"
 
 # ----------------------------------------------------------------------------- unit adapters
 
-def parse_lines(lines, spy=True):
+def parse_lines(lines, spy=True, lower=False):
     """parse `module m / <lines> / end module` with the real parser; -> (module, spied calls)
     spied: list of (masked statement, list(parent.strings)) seen by line_to_variables"""
     import ford.sourceform as sf
@@ -26,7 +26,7 @@ def parse_lines(lines, spy=True):
     with F.Work({"src/m.f90": text}) as w:
         sf.line_to_variables = wrapper
         try:
-            p = F.parse_project(w.root, src_dirs=("src",), correlate=False)
+            p = F.parse_project(w.root, src_dirs=("src",), correlate=False, lower=bool(lower))
         finally:
             sf.line_to_variables = orig
     mods = list(p.modules)
@@ -82,6 +82,21 @@ def browser_text(el):
     return t.replace(NBSP, " ")
 
 
+def lower_outside(text):
+    """lower-case the code outside character literals"""
+    out, q = [], None
+    for c in text:
+        if q is None:
+            out.append(c if c in "'\"" else c.lower())
+            if c in "'\"":
+                q = c
+        else:
+            out.append(c)
+            if c == q:
+                q = None
+    return "".join(out)
+
+
 def squash(text):
     """drop blanks outside character literals (FORD re-spaces declarations; literal bodies must survive)"""
     out, q = [], None
@@ -135,13 +150,17 @@ def all_vars(p):
     return out
 
 
-def check_pages(doc, p, control_doc=None):
+def check_pages(doc, p, control_doc=None, lower=False):
     """-> (problems, stats).  problem = dict(page, what, site, name, expected, got, ...)"""
     from bs4 import BeautifulSoup
     doc = pathlib.Path(doc)
     vars_ = all_vars(p)
     problems, stats = [], collections.Counter()
     seen = collections.Counter()
+    base_squash = globals()["squash"]
+
+    def squash(text):       # with `lower` on, code outside literals is compared up to letter case
+        return lower_outside(base_squash(text)) if lower else base_squash(text)
     exposed, created = collections.Counter(), collections.Counter()
 
     def markup(text):
@@ -293,7 +312,8 @@ def run_project(job):
     src = G.render_project(p, control=False)
     ctl = G.render_project(p, control=True)
     res["source"] = src
-    opts = {"proc_internals": "true", "display": ["public", "private", "protected"], "incl_src": "false"}
+    opts = {"proc_internals": "true", "display": ["public", "private", "protected"], "incl_src": "false",
+            "lower": "true" if job.get("lower") else "false"}
     opts.update(job.get("options") or {})
     with F.Work({"src/m.f90": src}) as w, F.Work({"src/m.f90": ctl}) as wc:
         data, out, err = F.full_run_inprocess(w.root, opts)
@@ -307,7 +327,7 @@ def run_project(job):
         if "Error parsing" in out:
             res["error"] = "parse: " + out[out.index("Error parsing"):][:300]
             return res
-        probs, stats = check_pages(w.root / "doc", p, wc.root / "doc")
+        probs, stats = check_pages(w.root / "doc", p, wc.root / "doc", lower=bool(job.get("lower")))
         res["problems"], res["stats"] = probs, stats
     res["project"] = p
     return res
